@@ -63,6 +63,44 @@ CLAIMS = {
          "semantics, quiescent => full, wiring max = 100 / 45 s translated from the source; real limitClient scenarios checked "
          "by trace inclusion.",
          "§4 C18", "Go select/defer/channel semantics modelled.", "Coq proof (LTS invariant by induction over traces) + translation + trace inclusion"),
+ "C05": ("Coq theorems: the generated limits equal the documented ones; at most 2000 unforced metrics under every build and "
+         "iteration order, forced offers never refused, numDropped exact; every reservoir capacity is min(daemon max, collector "
+         "limit) (log: also the agent limit scaled to the report period) for ALL agent/collector values incl. absent, negative, "
+         "> max, >= 2^63; advertised limits; 250-application cap over all histories; counters exact through merges and Split.",
+         "§4 C05", "float64 arithmetic of processLogEventLimits modelled on Z (exactness argued for products < 2^53); encoding/json decode modelled.",
+         "Coq proof + grid/differential correspondence through parseConnectReply, UnmarshalAppInfo, NewHarvest and a real Processor"),
+ "C10": ("Coq theorems over EVERY byte string: decoding on the connection goroutine ends in ok/error/recovered panic with the "
+         "state unchanged, the lazy transaction decode on the processor goroutine is contained, other runs are untouched and the "
+         "service continues (bisimulation); one listed known finding (span_queue_size) with refuted/partial theorems; thousands "
+         "of structured mutants through the real listener + CommandsHandler + live Processor.",
+         "§4 C10", "byte-level model of the flatbuffers Go runtime accessors is a hand transcription driven by the generated schema; harvest aggregation abstracted to contribution lists.",
+         "Coq proof (total decoder with uint32 wrap, None exactly where Go panics) + mutation-based differential correspondence"),
+ "C14": ("PARTIAL by nature: Coq theorems for the redaction functions (license obfuscation non-interference, argument echo "
+         "non-interference for every spelling on both flag sets, url.Error scrubbing) and a typed table of all log call sites "
+         "translated from the source; dynamic scan of every log/audit byte of the real client against a local server for every "
+         "outcome class and of the real daemon for every proxy spelling; short license keys are a listed known finding.",
+         "§4 C14, §8", "net/http / TLS / proxy error values are sampled, not enumerated; log-site table is type-based, not data-flow.",
+         "Coq proof (non-interference of redaction functions) + source translation of log sites + dynamic secret scan"),
+ "C15": ("Translation of protocol.fbs, the generated Go accessors/builders and the C header into three Coq tables on every run; "
+         "Coq theorems: the tables agree field by field over the whole schema (exhaustive), shared limits equal, and for ANY "
+         "schema table equality is exactly the condition for every message to decode to what was sent; messages built with the "
+         "C header's numbers decoded by the daemon's accessors.",
+         "§4 C15", "translator and alias table trusted; the C side is its header and the call kinds of the transmit code.",
+         "source translation + Coq proof (generic vtable round trip) + exhaustive vm_compute table comparison"),
+ "C17": ("PARTIAL by nature: Coq theorems that the vector-clock race checker is sound for happens-before, that the one-owner / "
+         "transfer-along-edges discipline is race-free, and that every trace of the worker protocol LTS (any number of "
+         "connections, harvests, restarts, observers, shutdown) follows it; a field-level access table extracted from the "
+         "current source (go/ssa) checked against the discipline in Coq; the real listener+processor+limiter+observer under "
+         "go test -race.",
+         "§4 C17, §8", "no Go semantics in Coq: adherence of the code to the protocol rests on the race detector (sampled schedules) and the type-based access table.",
+         "Coq proof (happens-before soundness, ownership invariant over traces) + source translation + race-detector search"),
+ "C19": ("Coq theorems: the config lexer is total on every byte string (no panic state reachable), every file syntax reads back, "
+         "flag spellings, command line over file over default for every setting on the new and the legacy path, unknown keys "
+         "ignored, malformed values reported, listen address resolution; flag tables and defaults translated from main.go; "
+         "real configure() in child processes and ParseString on arbitrary bytes; escaped quote in double-quoted values is a "
+         "listed known finding.",
+         "§4 C19", "Go flag/strconv/time/utf8 behaviour transcribed by hand; rune classes from the local toolchain tables.",
+         "Coq proof (lexer totality, precedence) + source translation + differential correspondence"),
  "C20": ("Coq theorems: respawn iff exit status >= 2 or a signal other than SIGTERM for every termination cause and all 2^16 wait "
          "statuses; watcher loop; pid-file lock protocol over a model of fcntl record locks; exhaustive ShouldRespawn table, real "
          "runWatcher with scripted workers, real daemons racing for one pid file.",
